@@ -502,7 +502,7 @@ func classify(c *Case) (bool, []string) {
 func TestC14Stream(t *testing.T) {
 	rec := ev.New("stream")
 	rapid.Check(t, func(t *rapid.T) {
-		r, _ := gen.GenReq(t, 0, gen.ReqOpts{Fold: false, NearMiss: false, Expect: true, Huge: false, ForceBody: rapid.IntRange(0, 9).Draw(t, "forceBody") > 0})
+		r, _ := gen.GenReq(t, 0, gen.ReqOpts{Fold: false, NearMiss: false, Expect: true, ChunkExt: true, Huge: false, ForceBody: rapid.IntRange(0, 9).Draw(t, "forceBody") > 0})
 		if r.Method == "GET" || r.Method == "HEAD" {
 			r.Method = "POST"
 		}
@@ -576,7 +576,7 @@ func TestC14Loopback(t *testing.T) {
 	}()
 	inconcl := 0
 	rapid.Check(t, func(t *rapid.T) {
-		r, _ := gen.GenReq(t, 0, gen.ReqOpts{Expect: true, ForceBody: rapid.IntRange(0, 9).Draw(t, "forceBody") > 0})
+		r, _ := gen.GenReq(t, 0, gen.ReqOpts{Expect: true, ChunkExt: true, ForceBody: rapid.IntRange(0, 9).Draw(t, "forceBody") > 0})
 		if r.Method == "GET" || r.Method == "HEAD" {
 			r.Method = "POST"
 		}
@@ -788,6 +788,33 @@ func TestC14Regress(t *testing.T) {
 					ev.Fail(prop, "regress", map[string]interface{}{"case": "D24", "body": n, "stop": stop, "cuts": cuts}, msg)
 					t.Errorf("D24 body=%d stop=%d cuts=%v: %s", n, stop, cuts, msg)
 				}
+			}
+		}
+	}
+	// D71/D72: chunk-size lines that the stream's reader refuses or used to refuse, in front of chunk data
+	// that reads like an empty trailer section and a request. Raw streams: after POST /up the server serves
+	// GET /after next, or closes; it never serves GET /smuggled.
+	data := "\r\nGET /smuggled HTTP/1.1\r\nHost: a\r\nX-Pad: xxx\r\n\r\n"
+	data = (data + strings.Repeat("p", 0x40))[:0x40]
+	for _, sizeLine := range []string{"40;0", "40;ext=\"q\"", "00000000000000040", "000000000000000040", "40 ", "40;" + strings.Repeat("e", 5000)} {
+		for _, stop := range []int{-1, 0, 3} {
+			raw := "POST /up HTTP/1.1\r\nHost: example.com\r\nTransfer-Encoding: chunked\r\n\r\n" + sizeLine + "\r\n" + data + "\r\n0\r\n\r\n" + "GET /after HTTP/1.1\r\nHost: example.com\r\n\r\n"
+			lg := &readLog{}
+			curLog, curProg = lg, Program{Sizes: []int{4096}, Stop: stop}
+			obs, res, _ := server(4096, 0).Run([][]byte{[]byte(raw)}, sconn.EOF)
+			rec.Case(true, ev.HashString("chunk-size-line", sizeLine, fmt.Sprint(stop)), "regress-chunk-size-line")
+			bad := ""
+			if res.Panic != nil {
+				bad = fmt.Sprintf("panic: %v", res.Panic)
+			}
+			for i, o := range obs {
+				if !(i == 0 && o.URI == "/up") && o.URI != "/after" {
+					bad = fmt.Sprintf("handler invocation #%d is %s %s: chunk data was served as a request (the stream gave %d bytes, err=%v)", i, o.Method, o.URI, len(lg.data), lg.err)
+				}
+			}
+			if bad != "" {
+				ev.Fail(prop, "regress", map[string]interface{}{"case": "chunk-size-line", "size_line": sizeLine, "stop": stop}, bad)
+				t.Errorf("chunk-size line %q stop=%d: %s", sizeLine, stop, bad)
 			}
 		}
 	}
